@@ -329,6 +329,13 @@ func isSameFieldSignature(a, b *ast.FieldDefinition) bool {
 	if a.Type.String() != b.Type.String() {
 		return false
 	}
+	// the default value of an input field
+	if (a.DefaultValue == nil) != (b.DefaultValue == nil) {
+		return false
+	}
+	if a.DefaultValue != nil && a.DefaultValue.String() != b.DefaultValue.String() {
+		return false
+	}
 	if len(a.Arguments) != len(b.Arguments) {
 		return false
 	}
